@@ -208,8 +208,13 @@ def _mk_record(X, tag, kind, name_i, rd_len, rd_name_i, opaque_menu=False):
     dns = _dns()
     from mitmproxy.net.dns import domain_names
     pyname, labels = NAMES[name_i]
-    cls = X.bv(f"{tag}.class", 16)
-    ttl = X.bv(f"{tag}.ttl", 32)
+    # class/ttl symbolic only where mitmproxy does not byte-scan symbolic rdata (their octets would
+    # otherwise become symbolic pointer targets and multiply the tree); concrete elsewhere
+    if kind in ("opaque", "CNAME"):
+        cls = X.bv(f"{tag}.class", 16)
+        ttl = X.bv(f"{tag}.ttl", 32)
+    else:
+        cls, ttl = 1, 0x00C0FFEE
     rname, rlabels = NAMES[rd_name_i]
     if kind in ("opaque", "TXT", "HINFO"):
         if kind == "opaque":
@@ -234,7 +239,7 @@ def _mk_record(X, tag, kind, name_i, rd_len, rd_name_i, opaque_menu=False):
             items = [0, 1, 0, 2] + _u_items(port, 2) + packed_name
             fields = (("raw", "priority", [0, 1]), ("raw", "weight", [0, 2]), ("raw", "port", _u_items(port, 2)), ("name", "target", rlabels))
         else:  # SOA
-            serial = X.bv(f"{tag}.serial", 32)
+            serial = (X.bv(f"{tag}.serial_hi", 16) << 16) | 0x0001  # upper half symbolic (one potential pointer), lower half fixed
             rest = [0, 0, 14, 16, 0, 0, 3, 132, 0, 9, 58, 128, 0, 0, 0, 60]
             items = packed_name + list(domain_names.pack("h.a")) + _u_items(serial, 4) + rest
             fields = (("name", "mname", rlabels), ("name", "rname", (b"h", b"a")), ("raw", "serial", _u_items(serial, 4)),
@@ -277,6 +282,10 @@ def _check_roundtrip(X, m, expect_ref, where):
         m2 = dns.DNSMessage.unpack(p)
     except struct.error as e:
         X.fail(f"C25/{where}/unpack-rejects-own-output", f"unpack(packed(m)) raised {e!r}")
+    except (symx.Unsupported, symx.Violation):
+        raise
+    except Exception as e:  # noqa
+        X.fail(f"C25/{where}/unpack-raises/{type(e).__name__}", f"unpack(packed(m)) raised {type(e).__name__}: {str(e)[:200]}")
     d = msg_diff(m, m2)
     if d is not None and d.endswith("/data"):
         sec, i, _ = d.split("/")
@@ -301,19 +310,24 @@ def h_rt_record(X, max_len):
         X.opaque_str(True)
         sec = "answers"
         kind = X.choose("kind", KINDS)
-        name_i = X.choose("owner", len(NAMES))
-        qname_i = (name_i + 1) % len(NAMES)
+        # the 63-octet label only with kinds whose rdata mitmproxy does not byte-scan (message length = number of pointer targets)
+        nn = len(NAMES) if kind in ("opaque", "CNAME") else len(NAMES) - 1
+        name_i = X.choose("owner", nn)
+        qname_i = (name_i + 1) % nn
         if kind in ("opaque", "TXT", "HINFO"):
             rd_len = X.choose("rdlen", list(range(0, max_len + 1)))
             rd_name_i = 0
         else:
             rd_len = 0
-            rd_name_i = X.choose("rdname", len(NAMES))
+            rd_name_i = X.choose("rdname", nn)
         rr, fields, labels, typ, cls, ttl = _mk_record(X, "r", kind, name_i, rd_len, rd_name_i, opaque_menu=True)
         object.__setattr__(rr, "_kind", kind)
-        qt, qc = X.bv("q.type", 16), X.bv("q.class", 16)
+        if kind in ("opaque", "CNAME"):
+            qt, qc, mid = X.bv("q.type", 16), X.bv("q.class", 16), X.bv("id", 16)
+        else:
+            qt, qc, mid = typ, 1, 0x1234
         q = dns.Question(NAMES[qname_i][0], qt, qc)
-        m = _mkmsg(id=X.bv("id", 16), query=False, questions=[q], **{sec: [rr]})
+        m = _mkmsg(id=mid, query=False, questions=[q], **{sec: [rr]})
         secs = {"answers": "an", "authorities": "ns", "additionals": "ar"}
         exp = dnsref.Msg(0, 0, [dnsref.Q(NAMES[qname_i][1], qt, qc)], [], [], [])
         getattr(exp, secs[sec]).append(dnsref.RR(labels, typ, cls, ttl, fields))
@@ -441,11 +455,12 @@ def _decode_total(X, buf, where, reencode=True):
 
 
 def h_total_short(X, n):
-    """12-octet header (id/flags symbolic, counts selected <= 2) + n fully symbolic body octets"""
+    """12-octet header (id from a menu of octet pairs that matter as pointer targets, flags fixed, the
+    four counts selected <= 2) + n fully symbolic body octets"""
     with dnsshim.installed(X.symbolic, step_limit=64 * (n + 13) ** 2):
         X.opaque_str(True)
         counts = [X.choose(f"c{i}", 3) for i in range(4)]
-        hdr = X.bytes("h", 4)
+        hdr = list(X.choose("id", ID_MENU)) + [0x01, 0x00]
         body = X.bytes("b", n)
         items = list(hdr)
         for c in counts:
@@ -454,6 +469,7 @@ def h_total_short(X, n):
         _decode_total(X, dnsshim.mkbuf(X.symbolic, items), "decode")
 
 
+ID_MENU = [(0x00, 0x00), (0xC0, 0x00), (0x01, 0x2E), (0xC0, 0x0C)]  # root / self-pointer / label '.' / pointer to the body
 RTYPES_QUICK = [16, 5, 1]
 RTYPES_THOROUGH = [16, 5, 6, 15, 33, 1, 65280]
 
@@ -679,17 +695,17 @@ def obligations(tier):
              encoded=ENCODED[:3], must_reach=["packed", "rejected"], stubs=STUBS),
         Symx("roundtrip-record", lambda X: h_rt_record(X, 3 if q else 6),
              bounds=f"1 question + 1 record in any section; owner/question/rdata names from a 4-name menu (root, 'a', IDN, 63-octet label); record kind from {KINDS}; "
-                    f"type (opaque kind)/class/ttl symbolic 16/16/32 bit; opaque/TXT/HINFO rdata = 0..{3 if q else 6} fully symbolic octets; MX preference, SRV port, SOA serial symbolic",
+                    f"type (opaque kind)/class/ttl symbolic 16/16/32 bit; opaque/TXT/HINFO rdata = 0..{3 if q else 6} fully symbolic octets; MX preference, SRV port, SOA serial (upper 16 bits) symbolic; class/ttl/question type+class/id symbolic for the opaque and CNAME kinds",
              encoded=ENCODED, must_reach=["built"] + [f"kind:{k}" for k in KINDS], stubs=STUBS, parallel_depth=3, budget_s=150 if q else 900),
-        Symx("roundtrip-all-types", lambda X: h_rt_alltypes(X, 2 if q else 3),
-             bounds=f"one answer record, TYPE any 16-bit value not name-bearing per RFC 1035/3597, {2 if q else 3} fully symbolic rdata octets",
+        Symx("roundtrip-all-types", lambda X: h_rt_alltypes(X, 3 if q else 4),
+             bounds=f"one answer record, TYPE any 16-bit value not name-bearing per RFC 1035/3597, {3 if q else 4} fully symbolic rdata octets",
              encoded=ENCODED, must_reach=["decoded"], stubs=STUBS, parallel_depth=2),
         Symx("roundtrip-structure", lambda X: h_rt_structure(X, 2 if q else 3),
              bounds=f"0..{2 if q else 3} entries in each of the 4 sections (all count combinations), type/class/ttl/1 rdata octet symbolic per record",
              encoded=ENCODED, must_reach=["built", "all-sections-full"], stubs=STUBS, parallel_depth=3, budget_s=150 if q else 900),
         Symx("bad-names-rejected", h_bad_names, bounds=f"names {BAD_NAMES} in question / owner position", encoded=ENCODED[:1] + ENCODED[3:4], must_reach=["rejected"]),
-        Symx("total-short-buffers", lambda X: h_total_short(X, 2 if q else 4),
-             bounds=f"every buffer of 12+{2 if q else 4} octets: id/flags and all body octets symbolic, the four counts each in 0..2 (all 81 combinations); "
+        Symx("total-short-buffers", lambda X: h_total_short(X, 3 if q else 5),
+             bounds=f"every buffer of 12+{3 if q else 5} octets: all body octets symbolic, the four counts each in 0..2 (all 81 combinations), id from a 4-entry menu (as pointer target: root, self-loop, '.', pointer to body), flags 0x0100; "
                     "all 14-bit pointer targets incl. self/forward/into the header",
              encoded=ENCODED, must_reach=["parse-error"], stubs=STUBS, parallel_depth=4, budget_s=200 if q else 1200),
         Symx("total-record-buffers", lambda X: h_total_record(X, 3 if q else 5, RTYPES_QUICK if q else RTYPES_THOROUGH),
@@ -710,6 +726,6 @@ def obligations(tier):
         Symx("https-roundtrip", lambda X: h_https_rt(X, 2, 2 if q else 3),
              bounds=f"priority in [-40000,70000] symbolic; target from the 4-name menu; 0..2 params, keys from {{0,1,3,5,255,65535}}, values 0..{2 if q else 3} symbolic octets",
              encoded=ENCODED_HTTPS, must_reach=["packed", "rejected"], stubs=STUBS, parallel_depth=3),
-        Symx("https-total", lambda X: h_https_total(X, 6), bounds="https_records.unpack on every buffer of 0..6 symbolic octets, and on priority(symbolic)+root target+1..2 params with menu keys, symbolic length octets and 0..2 symbolic value octets",
+        Symx("https-total", lambda X: h_https_total(X, 5), bounds="https_records.unpack on every buffer of 0..5 symbolic octets, and on priority(symbolic)+root target+1..2 params with menu keys, symbolic length octets and 0..2 symbolic value octets",
              encoded=ENCODED_HTTPS + ENCODED[5:6], must_reach=["parse-error", "decoded"], stubs=STUBS, parallel_depth=3, budget_s=200 if q else 1200),
     ]
